@@ -192,8 +192,6 @@ theorem cutEq_append (k v : Bytes) (hk : ∀ c ∈ k, c.toNat ≠ 61) : cutEq (k
 
 /-! ### ParseQuery of an encoded pair -/
 
-def encodePair (k v : Bytes) : Bytes := queryEscape k ++ 61 :: queryEscape v
-
 theorem encodePair_props (k v : Bytes) :
     (38 : UInt8) ∉ encodePair k v ∧ encodePair k v ≠ [] ∧ (encodePair k v).any (fun b => b.toNat = 59) = false := by
   unfold encodePair
